@@ -153,6 +153,8 @@ class SumAggregator:
             rules = self.rule_dependency.get_rules_that_derive(pred)
             if len(rules) != 1:
                 continue
+            if not self.domain_predicates.has_domain(pred):
+                continue  # no chain can be built over a predicate without a computable domain
             at_most, at_least = self._calc_at_most_on_rule(rules[0])
             ret[0].extend(at_most)
             ret[1].extend(at_least)
